@@ -77,8 +77,8 @@ pub struct HistCfg {
     pub lang: LangId,
     pub gen: GenCfg,
     pub max_ops: usize,
-    /// weights of the op kinds: add, unrelated, permuted, renamed, context, reorder, existing, congruent-parents, symmetric-then-redundant
-    pub weights: [usize; 9],
+    /// weights of the op kinds: add, unrelated, permuted, renamed, context, reorder, existing, congruent-parents, symmetric-then-redundant, improving-child cascade
+    pub weights: [usize; 10],
     pub namings: Vec<Naming>,
 }
 
@@ -89,11 +89,11 @@ impl HistCfg {
             gen: GenCfg {
                 alphabet: 4,
                 max_depth: 3,
-                ops: Some(vec!["v", "c0", "f2", "g3", "c1", "w", "p", "lam", "let", "sum2", ""]),
+                ops: Some(vec!["v", "c0", "f2", "g3", "c1", "w", "p", "lam", "let", "sum2", "", "t3", "q2"]),
                 ..GenCfg::default()
             },
             max_ops: 6,
-            weights: [2, 2, 3, 3, 3, 2, 3, 2, 2],
+            weights: [2, 2, 3, 3, 3, 2, 3, 2, 2, 2],
             namings: vec![Naming::Alpha],
         }
     }
@@ -390,6 +390,83 @@ pub fn decode_hist_from(cfg: &HistCfg, chunks: &[Vec<u16>], naming_choice: u16, 
                 } else {
                     ops.push(HOp::Union(i2, i1));
                 }
+            }
+            9 => {
+                // improving-child cascade: X = { C1[A], C2[A] } by an explicit union, T = { C2[B] } with some extra parents,
+                // then A = B with B small: C2[A] and C2[B] become congruent (X and T merge inside one rebuild) while C1[A]
+                // changes (its child got a smaller / different class datum) in the same rebuild
+                let a = if n_terms > 0 && src.coin(1, 3) { terms[src.pick(n_terms)].clone() } else { mk(&mut src) };
+                let b = {
+                    let mut g = cfg.gen.clone();
+                    g.max_depth = if src.coin(1, 2) { 0 } else { 1 };
+                    cap_fv(&gen_tm(&sig, &g, &mut src, 0), cfg.gen.max_fv)
+                };
+                let ctx_ops: Vec<&OpSig> = sig
+                    .ops
+                    .iter()
+                    .filter(|o| !o.is_leaf() && cfg.gen.ops.as_ref().map(|v| v.contains(&o.name)).unwrap_or(true))
+                    .collect();
+                if ctx_ops.is_empty() {
+                    push_add(a, &mut ops, &mut terms, &mut n_terms);
+                    continue;
+                }
+                // a context is an operator, the position of the hole, binder names and the sibling terms
+                let mk_ctx = |src: &mut Src, sib_depth: usize| -> (usize, usize, Vec<Arg>) {
+                    let oi = src.pick(ctx_ops.len());
+                    let o = ctx_ops[oi];
+                    let hole = src.pick(o.n_kids());
+                    let mut args = Vec::new();
+                    for f in &o.fields {
+                        match f {
+                            Field::Slot => args.push(Arg::S(src.pick(cfg.gen.alphabet as usize) as Name)),
+                            Field::PayU32 => args.push(Arg::P("1".into())),
+                            Field::PaySym => args.push(Arg::P("s".into())),
+                            Field::PayOther(v) => args.push(Arg::P(v[0].to_string())),
+                            Field::Kid(nb) => {
+                                let mut bs = Vec::new();
+                                for _ in 0..*nb {
+                                    bs.push(src.pick(cfg.gen.alphabet as usize) as Name);
+                                }
+                                if bs.len() == 2 && bs[0] == bs[1] {
+                                    bs[1] = (bs[1] + 1) % cfg.gen.alphabet.max(2);
+                                }
+                                let mut g = cfg.gen.clone();
+                                g.max_depth = sib_depth;
+                                args.push(Arg::K(bs, gen_tm(&sig, &g, src, 0)));
+                            }
+                        }
+                    }
+                    (oi, hole, args)
+                };
+                let fill = |(oi, hole, args): &(usize, usize, Vec<Arg>), inner: &Tm| -> Tm {
+                    let mut kid = 0;
+                    let args: Vec<Arg> = args
+                        .iter()
+                        .map(|x| match x {
+                            Arg::K(bs, k) => {
+                                let r = if kid == *hole { Arg::K(bs.clone(), inner.clone()) } else { Arg::K(bs.clone(), k.clone()) };
+                                kid += 1;
+                                r
+                            }
+                            o => o.clone(),
+                        })
+                        .collect();
+                    cap_fv(&fix_same_node_shadowing(Tm { op: ctx_ops[*oi].name.to_string(), args }, 0), cfg.gen.max_fv + 1)
+                };
+                let c1 = mk_ctx(&mut src, 1);
+                let c2 = mk_ctx(&mut src, 2);
+                let i1 = push_add(fill(&c1, &a), &mut ops, &mut terms, &mut n_terms);
+                let i2 = push_add(fill(&c2, &a), &mut ops, &mut terms, &mut n_terms);
+                ops.push(if src.coin(1, 2) { HOp::Union(i1, i2) } else { HOp::Union(i2, i1) });
+                let t = fill(&c2, &b);
+                push_add(t.clone(), &mut ops, &mut terms, &mut n_terms);
+                for _ in 0..src.pick(4) {
+                    let c3 = mk_ctx(&mut src, 0);
+                    push_add(fill(&c3, &t), &mut ops, &mut terms, &mut n_terms);
+                }
+                let ia = push_add(a, &mut ops, &mut terms, &mut n_terms);
+                let ib = push_add(b, &mut ops, &mut terms, &mut n_terms);
+                ops.push(if src.coin(1, 2) { HOp::Union(ia, ib) } else { HOp::Union(ib, ia) });
             }
             _ => {
                 if n_terms >= 2 {
